@@ -278,52 +278,58 @@ Proof. vm_compute. repeat split. repeat constructor. Qed.
 
 (* ====================================================================================== *)
 (* Pointer-level refinement (theories/Mut/Heap.v, HeapProofs.v, HeapRemove.v, HeapMore.v,
-   HeapMove.v, HeapRefine.v).
+   HeapMove.v, HeapShort.v, HeapKeep.v, HeapData.v, HeapCopy.v, HeapSortDeep.v, HeapRefine.v,
+   HeapFilter.v, HeapFromDict.v, HeapFull.v).
 
    Heap.v models every node with the raw attributes of the Python object - _parent, _children
    (None vs list), _tree - and writes the mutators as the sequences of assignments the methods of
    node.py / tree.py perform.  [Rep h t]: the pointers of heap [h] are exactly the ones the forest
-   value of the machine state [t] induces.  For the operations selected by [covered_heap] the heap
+   value of the machine state [t] induces.  For EVERY operation of the machine the heap
    operation returns the same result as the forest-level operation and re-establishes [Rep] - for
    ALL arguments, error exits included - so "exactly one parent / exactly once by identity in that
    parent's child list / never its own ancestor / owner = the tree / reachable = counted" become
-   theorems about the assignments the code executes ([HeapOK]).  Covered: add_child(data), the four
-   shortcuts, remove (plain, keep_children, with_clones), remove_children, clear, del, move_to (cross-tree
-   moves are refused by the code), sort_children (flat and deep), set_data / rename (incl. clone groups),
-   metadata edits, new tree, and the copies (add(node) shallow and deep - Node._add_from allocating node
-   by node -, add(tree), copy_to, Tree.copy, Node.copy).  Modelled at statement level and compared
-   with the implementation on every run, but without a simulation proof: in-place filter (removals
-   interleaved with the visit) and from_dict / Tree.from_dict (with the `except: remove_children(); raise`
-   handler of every level) - they are compositions of remove / remove_children and of add_child. *)
-From NT Require Import Heap HeapProofs HeapRefine.
+   theorems about the assignments the code executes ([HeapOK]).  The operations: add_child(data), the
+   four shortcuts, remove (plain, keep_children, with_clones), remove_children, clear, del, move_to
+   (cross-tree moves are refused by the code), sort_children (flat and deep), set_data / rename (incl.
+   clone groups), metadata edits, new tree, the copies (add(node) shallow and deep - Node._add_from
+   allocating node by node -, add(tree), copy_to, Tree.copy, Node.copy), in-place filter (the removals
+   are interleaved with the visit: HeapFilter.v shows the interleaving equals the list of removals the
+   Machine computes on the initial value) and from_dict / Tree.from_dict with the
+   `except: remove_children(); raise` handler of every level (fix D48; HeapFromDict.v shows that the
+   cascade of handlers gives back exactly the tree as it was, the allocator excepted). *)
+From NT Require Import Heap HeapProofs HeapRefine HeapFull.
 
-(* one step: same result, related states *)
-Theorem C01_heap_step_partial : forall hw w o, covered_heap o = true -> WFw w -> RepW hw w ->
+(* one step, ANY operation: same result, related states *)
+Theorem C01_heap_step : forall hw w o, WFw w -> RepW hw w ->
   fst (h_step hw o) = fst (step w o) /\ RepW (snd (h_step hw o)) (snd (step w o)).
-Proof. exact sim_step. Qed.
-Print Assumptions C01_heap_step_partial.
+Proof. exact sim_step_all. Qed.
+Print Assumptions C01_heap_step.
 
 (* the commuting square with the EXECUTABLE abstraction [abs_world] (unfold every tree's child lists from
    its root, fuel = number of allocated nodes): abs (heap_op h) = machine_op (abs h), same result *)
-Theorem C01_heap_commutes_partial : forall hw w o, covered_heap o = true -> WFw w -> RepW hw w ->
+Theorem C01_heap_commutes : forall hw w o, WFw w -> RepW hw w ->
   abs_world hw = Some w /\
   fst (h_step hw o) = fst (step w o) /\
   abs_world (snd (h_step hw o)) = Some (snd (step w o)).
-Proof. exact heap_commutes. Qed.
-Print Assumptions C01_heap_commutes_partial.
+Proof. exact heap_commutes_all. Qed.
+Print Assumptions C01_heap_commutes.
 
-(* histories from the empty world: the heap stays a representation of the machine state, is
+(* ANY history from the empty world: the heap stays a representation of the machine state, is
    well-formed in pointer terms, and unfolding its child lists from the roots (with fuel = number of
    allocated nodes, i.e. no cycle) yields exactly the machine's tree states *)
-Theorem C01_heap_refinement_partial : forall ops, forallb covered_heap ops = true ->
+Theorem C01_heap_refinement : forall ops,
   RepW (h_run ops h_empty_world) (run ops empty_world) /\
   Forall HeapOK (htrees (h_run ops h_empty_world)) /\
   map abs_tstate (htrees (h_run ops h_empty_world)) = map Some (trees (run ops empty_world)).
-Proof. exact heap_refinement. Qed.
-Print Assumptions C01_heap_refinement_partial.
+Proof. exact heap_refinement_all. Qed.
+Print Assumptions C01_heap_refinement.
 
-Definition C01_heap_refinement_full_statement : Prop :=
-  forall ops, RepW (h_run ops h_empty_world) (run ops empty_world).
+(* every result along ANY history is the Machine's result *)
+Theorem C01_heap_results : forall ops,
+  map fst (map (fun k => h_step (h_run (firstn k ops) h_empty_world) (nth k ops (ONewTree false None))) (seq 0 (length ops))) =
+  map fst (map (fun k => step (run (firstn k ops) empty_world) (nth k ops (ONewTree false None))) (seq 0 (length ops))).
+Proof. intros ops. apply sim_trace_all; [apply WFw_empty|apply HeapMore.RepW_empty]. Qed.
+Print Assumptions C01_heap_results.
 
 (* the abstraction function on a representing heap *)
 Theorem C01_heap_abstraction : forall h t, WF t -> Rep h t ->
@@ -364,11 +370,28 @@ Example C01_heap_removed_pointers :
   let ops := [ONewTree false None; OAdd 0 0 (c01_dd 10) None None BNone; OAdd 0 1 (c01_dd 20) None None BNone;
               OAdd 0 2 (c01_dd 30) None None BNone; OAdd 0 0 (c01_dd 40) None None BNone;
               OMove 0 4 0 1 (BIdx 0); ORemove 0 2 false false] in
-  forallb covered_heap ops = true /\
   match htrees (h_run ops h_empty_world) with
   | [h] => hch h 0 = [1] /\ hch h 1 = [4] /\ hpar h 4 = Some 1 /\
            hpar h 2 = None /\ htr h 2 = false /\ hch h 2 = [] /\ hpar h 3 = None /\ htr h 3 = false /\
            abs_forest h = option_map forest_of (nth_error (trees (run ops empty_world)) 0)
+  | _ => False
+  end.
+Proof. vm_compute. repeat split. Qed.
+
+(* from_dict refused two levels down (a duplicate sibling): every level's handler runs
+   remove_children() and the tree is as before; only the allocator has moved on *)
+Example C01_heap_from_dict_refused :
+  let pre := [ONewTree false None; OAdd 0 0 (c01_dd 10) None None BNone; OAdd 0 0 (c01_dd 11) None None BNone] in
+  let o := OFromDict 0 1 [DI (c01_dd 20) None [DI (c01_dd 30) None []; DI (c01_dd 31) None [DI (c01_dd 40) None []; DI (c01_dd 40) None []]]] in
+  fst (h_step (h_run pre h_empty_world) o) = Err EUnique /\
+  fst (step (run pre empty_world) o) = Err EUnique /\
+  trees (snd (step (run pre empty_world) o)) = trees (run pre empty_world) /\
+  match htrees (snd (h_step (h_run pre h_empty_world) o)) with
+  | [h] => hch h 0 = [1; 2] /\ hch h 1 = [] /\ hreg h = [1; 2] /\
+           hpar h 3 = None /\ htr h 3 = false /\ hch h 3 = [] /\
+           hpar h 4 = None /\ htr h 4 = false /\ hpar h 6 = None /\ htr h 6 = false /\
+           hpar h 7 = Some 5 /\ htr h 7 = true /\ hpar h 5 = None /\   (* the refused object still points at the parent it was made for, and at the tree *)
+           abs_forest h = option_map forest_of (nth_error (trees (run pre empty_world)) 0)
   | _ => False
   end.
 Proof. vm_compute. repeat split. Qed.
